@@ -236,6 +236,18 @@ func (c *kCtx) transitions(k *kSys, a kAction, before []string, report bool, his
 			}
 			return false
 		}
+		if ob == "plotting" && (na == "ready" || na == "mining") {
+			// leaving "plotting" for ready/mining is plot COMPLETION: the database must hold a finished plot
+			k.db[i].mu.Lock()
+			pr := k.db[i].progress
+			k.db[i].mu.Unlock()
+			if pr < 100 {
+				if report {
+					c.viol("unfinished-plot-became-"+na, site, fmt.Sprintf("workspace %s moved plotting->%s although its plot was aborted at %.4f%%", kNames[i], na, pr), hist, op)
+				}
+				return false
+			}
+		}
 		if ob == "plotting" && (na == "ready" || na == "mining") && k.stopped[i] {
 			if report {
 				c.viol("stopped-space-plot-completed", "stop-before-plot-start", fmt.Sprintf("workspace %s was stopped while marked plotting, yet its plot ran to completion and it became %s", kNames[i], na), hist, op)
